@@ -67,6 +67,7 @@ def run_case(case, ctx):
     if "literal" in case:
         kw = dict(case["literal"]["params"])
         xs = list(case["literal"]["stream"])
+        typed = case["literal"].get("dtype")
     else:
         rng = gen.rng_for(case["seed"], cls)
         kw = draw_params(rng)
@@ -79,6 +80,18 @@ def run_case(case, ctx):
             xs = gen.level_shift_stream(rng, n, seg=(4, 150), offset=off, heavy=bool(rng.random() < 0.3))
             if r < 0.25:
                 xs = [float(v > off) for v in xs]
+            elif r < 0.40:
+                # typed inputs: the same numbers arrive as small unsigned integers / float32 (numpy scalars and 1x1 arrays)
+                typed = str(rng.choice(["uint8", "int16", "float32"]))
+                if typed == "float32":
+                    xs = [float(np.float32(v - off)) for v in xs]
+                else:
+                    lo_, hi_ = min(xs), max(xs)
+                    top = 255 if typed == "uint8" else 30000
+                    xs = [float(int(round((v - lo_) / (hi_ - lo_ + 1e-12) * top))) for v in xs]
+    typed = locals().get("typed")
+    if typed:
+        ctx.count("typed_input_streams:" + typed)
     if cls == "ADWIN":
         d = ADWIN(**kw)
     else:
@@ -90,7 +103,11 @@ def run_case(case, ctx):
     rngl = np.random.default_rng(len(xs))
     for i, x in enumerate(xs):
         if cls == "ADWIN":
-            d.update(x)
+            if typed:
+                tx = np.dtype(typed).type(x)
+                d.update(tx if i % 2 else np.array([[tx]]))
+            else:
+                d.update(x)
         else:
             # indicator x = 1{y_true == y_pred}, presented through arbitrary label pairs
             yt = int(rngl.integers(0, 3))
